@@ -487,8 +487,20 @@ static std::vector<OpRec> parse_ops(std::string const& s)
 static std::string g_steps;    // OUT line body
 static int g_boolmis = 0, g_multi = 0;
 
+// live heap blocks after every step (allocation monitor; compared with the model's block ledger)
+static int g_livehist[64];
+static int g_nhist = 0;
+static int live_blocks()
+{
+    int n = 0;
+    for (int i = 0; i < g_nlive; ++i)
+        if (g_live[i] != (void*) g_steps.data()) ++n;
+    return n;
+}
+
 static void emit_step(std::string const& res, std::string const& empt)
 {
+    if (g_nhist < 64) g_livehist[g_nhist++] = live_blocks();
     std::string ev;
     LG.take(ev);
     if (!g_steps.empty()) g_steps += ';';
@@ -1085,6 +1097,7 @@ static void run_case(std::string const& kind, std::string const& id, int p1, int
     g_boolmis = g_multi = 0;
     LG.reset();
     g_nlive = g_nquar = g_dfree = g_badfree = 0;
+    g_nhist = 0;
     g_track = true;
     if (kind == "SND") run_sender_case(p1, p2, ops);
     else if (p1) run_fn_case(F, p2, ops);
@@ -1102,9 +1115,11 @@ static void run_case(std::string const& kind, std::string const& id, int p1, int
         if (LG.st[i] != 2) ++notdead;
     std::printf("OUT %s %s %s\n", kind.c_str(), id.c_str(), g_steps.c_str());
     std::printf("MON %s %s constructed=%u alive_at_end=%d double_destroy=%d garbage=%d dead_use=%d "
-                "blocks_leaked=%d double_free=%d bool_mismatch=%d completion_count_bad=%d misaligned=%d bad_free=%d\n",
+                "blocks_leaked=%d double_free=%d bool_mismatch=%d completion_count_bad=%d misaligned=%d bad_free=%d live=",
         kind.c_str(), id.c_str(), LG.next, notdead, LG.dbl, LG.garbage, LG.dead_use,
         leak, g_dfree, g_boolmis, g_multi, LG.misaligned, g_badfree);
+    for (int i = 0; i < g_nhist; ++i) std::printf(i ? ".%d" : "%d", g_livehist[i]);
+    std::printf("\n");
     std::fflush(stdout);
 }
 
@@ -1143,7 +1158,7 @@ template <typename C, bool Big>
 static void types_callable()
 {
     char b[96];
-    std::snprintf(b, sizeof b, "F,%zu,%zu,%d,0;", sizeof(C), alignof(C), (int) Big);
+    std::snprintf(b, sizeof b, "F,%zu,%zu,%d,%d;", sizeof(C), alignof(C), (int) Big, (int) (alignof(C) > alignof(void*)));
     g_titems += b;
     alignas(16) unsigned char buf[pika::util::detail::function_storage_size];
     void* p = pika::util::detail::vtable::allocate<C>(buf, pika::util::detail::function_storage_size);
